@@ -112,6 +112,10 @@ pub fn cfg_for(scn: Scenario, t: &mut Tape, extra: u64) -> RunCfg {
                         // shorter than a slow write: the poll is dropped while a packet is half
                         // accepted (never in the whole-write run, whose writes take no time)
                         c.twin_poll_budget_us = [0, 120, 250][t.choose(3) as usize] * clock::US_PER_MS;
+                        // ... and in half of those also its QoS 1/2 publishes, subscribes and
+                        // unsubscribes: a request given up while its packet is half accepted is
+                        // finished by whatever the application does next
+                        c.twin_request_budget = t.chance(1, 2);
                     }
                     2 => {
                         // keep-alive variant with identical timing in both runs: time passes only
@@ -558,7 +562,7 @@ fn observe(w: &World) -> TwinObs {
         refused_for_resources: w
             .reqs
             .iter()
-            .filter(|r| r.accept == Accept::NotAccepted && matches!(r.refused_with.as_deref(), Some("NotReady") | Some("BufferTooSmall") | Some("InflightExhausted")))
+            .filter(|r| r.accept == Accept::NotAccepted && matches!(r.refused_with.as_deref(), Some("NotReady") | Some("BufferTooSmall") | Some("InflightExhausted") | Some("Payload")))
             .map(|r| r.tag)
             .collect(),
         cancelled_after_bytes: w.stats.probes.get("cancel_after_partial_write").copied().unwrap_or(0),
@@ -576,6 +580,7 @@ pub fn second_world(program_vals: Vec<u32>, sched: Option<Tape>) -> Box<World> {
     w.script_start_pos = first.script_start_pos;
     w.sched = sched;
     w.twin_mode = true;
+    w.second_execution = true;
     clock::reset();
     world::install(Box::new(w));
     first
@@ -795,18 +800,23 @@ fn frag_twin() {
     // not depend on it
     with(|w| {
         w.probe("twin_fragmented_with_slow_writes");
-        if w.cut {
+        if w.cut || w.twin_incomparable {
             return;
         }
         if base.delivered != twin.delivered {
             w.violate("C15", "deliveries-differ/slow-writes".into(), format!("whole-write run delivered {} messages, run with slow partial writes {}", base.delivered.len(), twin.delivered.len()));
         }
-        let non_ping = |o: &TwinObs| -> Vec<String> { o.keys.iter().flatten().filter(|k| *k != "PINGREQ").cloned().collect() };
+        // (with request timeouts: a request given up before it was enqueued leaves no trace, one
+        // the whole-write run refused for lack of room may fit now; results of requests differ by
+        // construction - "Cancelled" - and are not compared)
+        let timeouts = w.cfg.twin_request_budget && w.cfg.twin_poll_budget_us > 0;
+        let drop_tag = |k: &String| timeouts && twin.not_accepted.iter().chain(base.refused_for_resources.iter()).any(|t| k.ends_with(&format!(" t{t}")));
+        let non_ping = |o: &TwinObs| -> Vec<String> { o.keys.iter().flatten().filter(|k| *k != "PINGREQ" && !drop_tag(k)).cloned().collect() };
         if non_ping(&base) != non_ping(&twin) {
             w.violate("C15", "outbound-packets-differ/slow-writes".into(), format!("whole writes: {:?}; slow partial writes: {:?}", non_ping(&base), non_ping(&twin)));
         }
         let ops = |o: &TwinObs| -> Vec<String> { o.results.iter().filter(|r| !r.starts_with("poll:")).cloned().collect() };
-        if ops(&base) != ops(&twin) {
+        if !timeouts && ops(&base) != ops(&twin) {
             w.violate("C15", "results-differ/slow-writes".into(), format!("whole writes: {:?}; slow partial writes: {:?}", ops(&base), ops(&twin)));
         }
     });
